@@ -116,6 +116,9 @@ def append_step(pattern, folders, opts, new):
             f = files[i]
             c.append(f.get("name_units") == [ord(ch) for ch in en["name"]])
             c.append(f["emptystream"] == (en["kind"] in "ed"))
+            if layout.get("emptyfile_vector") and en["kind"] in "ed":
+                # the base says which stream-less entries are empty FILES (EmptyFile vector): that survives the append
+                c.append(f["emptyfile"] == (en["kind"] == "e"))
             c.append((f.get("attributes") is None) == (en["attributes"] is None))
             if en["attributes"] is not None and f.get("attributes") is not None:
                 c.append(eq(eng, f["attributes"], en["attributes"]))
@@ -266,6 +269,11 @@ def replay(pattern, folders, opts, new, witness):
             mm = ref7z.member_map(h)
         except Exception as e:  # noqa
             return True, "the header written by the append session is rejected by the independent reader: %r" % (e,)
+        if opts.get("emptyfile_vector"):
+            for en, hf in zip(entries, h["files"]):
+                if en["kind"] in "ed" and hf["emptyfile"] != (en["kind"] == "e"):
+                    return True, "independent reader: %s was an empty %s in the base archive, after the append its EmptyFile flag is %s" % (
+                        en["name"], "file" if en["kind"] == "e" else "directory", hf["emptyfile"])
         for (n, dta), m in zip(expect, mm):
             if dta is not None and (m["size"] != len(dta) or (m["crc"] is not None and m["crc"] != zlib.crc32(dta))):
                 return True, "independent reader: member %s has size %s crc %s, expected %d / %d" % (n, m["size"], m["crc"], len(dta), zlib.crc32(dta))
@@ -286,10 +294,10 @@ def units(tier):
              ("ff", [1, 1], {"packpos": True}), ("ffd", [2], {"attrs": "partial"}), ("dff", [1, 1], {"crc_at": "folder"}),
              ("ff", [2], {"times": "none"}), ("fd", [1], {"attrs": "none"}),
              ("fd", [1, 0], {}), ("fdf", [1, 0, 1], {}),
-             ("ff", [2], {"crc_at": "none"}),
+             ("ff", [2], {"crc_at": "none"}), ("fef", [1, 1], {"emptyfile_vector": True}),
              ("ff", [1, 1], {"packcrc": True, "packcrc_defined": [False, True]})]   # a base without any CRC: after the append the digest vector is partially defined   # a folder without members (what appending a lone directory leaves); above: a foreign base without any mtime / attribute property
     if tier == "thorough":
-        bases += [("fff", [2, 1], {"times": "partial"}), ("fef", [1, 1], {"emptyfile_vector": True}), ("fdff", [2, 1], {}),
+        bases += [("fff", [2, 1], {"times": "partial"}), ("fed", [1], {"emptyfile_vector": True}), ("fdff", [2, 1], {}),
                   ("fff", [1, 2], {"packcrc": True}), ("ff", [2], {"omit_numunpack": False})]
     news = ["s", "ss", "sd", "", "d", "l"] if tier == "quick" else ["s", "ss", "sd", "ds", "sss", "", "d", "l", "sl", "ls"]
     for (p, f, o) in bases:
